@@ -55,3 +55,37 @@ Definition stray_b (s : state) (h : nat) : bool :=
 Definition clear_source (s : state) (w : nat) : state := set_wsource s (upd (wsource s) w None).
 Definition integrity3 (s : state) (h : nat) : Z * bool * bool :=
   ((match checkIntegrity s h with IOk => 0 | IRaise => 1 | IFuel => 2 end)%Z, undriven_port_b s h, stray_b s h).
+
+(* ---------------------------------------------------------------- fast path of the per-call comparison
+   The real side sends, per call, its raise flag and a fingerprint of its canonical dump; as long as both agree with
+   the model, the model state IS the real state and the Spec clauses are evaluated on it.  At the first disagreement
+   the scan stops and returns the model's outcome and dump (the harness then re-sends that sequence with full dumps). *)
+Definition mix (h x : Z) : Z := ((h * 1000003 + x + 7) mod 2305843009213693951)%Z.
+Definition fp_row (h : Z) (l : list Z) : Z := fold_left mix l (mix h (Z.of_nat (length l))).
+Definition fp_ent (h : Z) (e : list (list Z)) : Z := fold_left fp_row e (mix h (Z.of_nat (length e))).
+Definition fp_part (h : Z) (p : list (list (list Z))) : Z := fold_left fp_ent p (mix h (Z.of_nat (length p))).
+Definition fp_dump (d : dumpT) : Z := fold_left fp_part d 1%Z.
+
+Fixpoint scan_fp (s : state) (ops : list op) (rec : list (Z * Z)) (i : Z)
+  : option (Z * Z * dumpT) * list (Z * Z * bool) * state :=
+  match ops, rec with
+  | o :: ops', (r, fp) :: rec' =>
+    let '(s', out) := step s o in
+    if Z.eqb (raised out) r && Z.eqb (fp_dump (dump s')) fp then
+      let bits := spec_bits s o r s' in
+      let '(d, l, sf) := scan_fp s' ops' rec' (i + 1)%Z in
+      (d, (if Z.eqb bits 0 then [] else [(i, bits, subject_registered_b s o)]) ++ l, sf)
+    else (Some (i, raised out, dump s'), [], s)
+  | _, _ => (None, [], s)
+  end.
+Definition scan_fast (ops : list op) (rec : list (Z * Z)) (hs : list nat)
+  : option (Z * Z * dumpT) * list (Z * Z * bool) * list (Z * bool * bool) :=
+  let '(d, l, sf) := scan_fp init ops rec 0%Z in
+  (d, l, match d with None => map (integrity3 sf) hs | Some _ => [] end).
+
+(* the same scan after a prefix of calls that is executed on the model without comparison (exhaustive sweeps share
+   their set-up prefix; the prefix itself is compared once as an ordinary sequence) *)
+Definition scan_fast_from (pre ops : list op) (rec : list (Z * Z)) (hs : list nat)
+  : option (Z * Z * dumpT) * list (Z * Z * bool) * list (Z * bool * bool) :=
+  let '(d, l, sf) := scan_fp (run pre) ops rec 0%Z in
+  (d, l, match d with None => map (integrity3 sf) hs | Some _ => [] end).
